@@ -26,7 +26,8 @@ META = {
             "closes the property: spells_grammar G text -> the repaired reader returns G. It is also checked on every run: the extracted Spec run of the transcribed "
             "grammar.pest must return the real parser's forest, which must have the shape tokens_of_grammar cg, for every generated spelling. The same statement about the code AS SHIPPED is "
             "refuted in Coq (C07_insens_space_refuted: `a = { ^ \"b\" }` reads as Insens(\"\\\"b\"); C07_nested_leading_bar_refuted: `a = { (| b | c) }` panics; both legal per "
-            "grammar.pest) and on the real code in every run; with fixes/C07-1 and fixes/C07-2 applied (probed) the repaired model applies and both witnesses must read back correctly.",
+            "grammar.pest) and on the real code in every run; with fixes/C07-1 and fixes/C07-2 applied (probed) the repaired model applies and both witnesses must read back correctly."
+            " Spellings include hostile comments (runs of * and / next to the terminator, nested comments, // ending the text); when the real meta-grammar differs from the transcription, every word over the terminals of the differing rules is inserted at every offset of base spellings and the real reader is compared with the written AST / the specification reader.",
     "note": "Trusted: Coq kernel; extraction (ExtrOcamlBasic only); harness/runner/driver; Peg.Spec as the meaning of grammar.pest; the hand transcription of grammar.pest (compared "
             "with the real reader's AST of the file on every run); the hand-written model of parser.rs (ParserNode spans and validate_ast not modelled; unescape over bytes instead of "
             "chars; Expr::Range strings abstracted to code points). Restrictions of spells_grammar: identifiers / rule names not starting with PUSH, \\u{..} with 2-6 digits, counts in "
@@ -37,7 +38,7 @@ META = {
     "feature_bins": {"extras": ["c07"]},
 }
 
-LEGEND = ("case x=<grammar-extras 0|1>|c=<concrete grammar>|t=<text, hex>. concrete grammar (g <//! lines> <trailing /// lines> (r </// lines> <name> <n|s|a|c|x = "
+LEGEND = ("case x=<grammar-extras 0|1>|c=<concrete grammar>|t=<text, hex> (or x=..|m=1|t=.. : escalated search, expected reading = specification reader). concrete grammar (g <//! lines> <trailing /// lines> (r </// lines> <name> <n|s|a|c|x = "
           "normal,_ ,@,$,!> <leading | 0|1> <expr>)..); expr as in gram.rs sexp plus (paren <leading |> e), (push <leading |> e), strings as code points a.b.c, "
           "(slice - j) = PEEK[..j]. observation <result>|<token forest of the real parse>; result = Ok <grammar sexp (strings hex)> | Syntax | Err kind start end | "
           "Invalid (validate_ast rejected, not part of C07) | Panic")
@@ -140,8 +141,96 @@ def run(tier, seed, replay=None):
 
     pipes, bounds = plan(tier, seed, hb, runner)
     mism, stats, contracts, known = run_cases(pipes, 160 if tier == "quick" else 3000)
+    res.coverage["escalation"] = "not run: the real reader's AST of grammar.pest equals coq/Meta/Tokens.v meta_grammar"
+    diff = metagrammar_diff(mism)
+    if diff and not contracts and not any(m["kind"] == "spec" for m in mism):
+        # the correspondence broke on grammar.pest itself and no generated spelling was read back wrongly: search for one
+        epipes, edesc = escalation_plan(tier, diff, hb, runner)
+        log("C07: grammar.pest differs from its transcription in %s; searching %s" % (", ".join(diff["rules"][:8]), edesc["what"]))
+        m2, s2, c2, k2 = run_cases(epipes, 400 if tier == "quick" else 3000)
+        mism += m2
+        contracts += c2
+        known += k2
+        for k, v in s2.items():
+            stats[k] = stats.get(k, 0) + v if isinstance(v, int) else v
+        edesc.update({"candidates": s2.get("evaluations", 0),
+                      "legal_spellings_of_a_base_grammar_checked_against_the_written_AST": s2.get("escalation_written_ast_oracle", 0),
+                      "texts_given_to_the_specification_reader": s2.get("escalation_spec_reads", 0),
+                      "of_which_it_reads_as_a_grammar": s2.get("escalation_read_as_a_grammar_by_the_specification", 0),
+                      "of_which_the_real_reader_agrees": s2.get("escalation_agreeing", 0),
+                      "failing_inputs_found": len([m for m in m2 if m["kind"] == "spec"]) + len(c2)})
+        res.coverage["escalation"] = edesc
+    elif diff:
+        res.coverage["escalation"] = "not needed: grammar.pest differs from its transcription (%s) and generated spellings already fail" % ", ".join(diff["rules"][:8])
     report(res, thm, mism, stats, contracts, known, bounds)
     return res.finish()
+
+
+def metagrammar_diff(mism):
+    """The rules in which the real reader's AST of grammar.pest differs from the transcription, and the terminals of those rules (both versions)."""
+    for m in mism:
+        if m["kind"] == "model" and m["case"].startswith("metagrammar"):
+            def rules(sx):
+                d = {}
+                for r in sx.split(";"):
+                    r = r.strip()
+                    if r.startswith("("):
+                        d[r[1:].split(" ", 1)[0]] = r
+                return d
+            a, b = rules(m["impl"]), rules(m["expected"])
+            names = [n for n in list(b) + [n for n in a if n not in b] if a.get(n) != b.get(n)]
+            if not a:                                    # the real reader did not even read grammar.pest
+                names = list(b)
+            lits = []
+            for n in names:
+                for sx in (a.get(n, ""), b.get(n, "")):
+                    for h in re.findall(r"\((?:str|ins) ([0-9a-f]+)\)", sx):
+                        lits.append(h)
+                    for lo, hi in re.findall(r"\(range (\d+) (\d+)\)", sx):
+                        lits += [chr(int(lo)).encode("utf-8").hex(), chr(int(hi)).encode("utf-8").hex()]
+            return {"rules": names, "literals": lits}
+    return None
+
+
+def escalation_plan(tier, diff, hb, runner):
+    """Words over the terminals of the differing rules (whole literals, their characters, a letter, a blank, a newline), inserted at every
+    offset of base spellings that use every token kind; see `escalate` in c07.rs."""
+    units = []
+    def add(h):
+        if h and h not in units:
+            units.append(h)
+    count = {}
+    for h in diff["literals"]:
+        count[h] = count.get(h, 0) + 1
+    for h in sorted(count, key=lambda h: (-count[h], len(h), h)):
+        add(h)
+    for h in list(units):
+        try:
+            for ch in bytes.fromhex(h).decode("utf-8"):
+                add(ch.encode("utf-8").hex())
+        except (ValueError, UnicodeDecodeError):
+            pass
+    units = units[:9]
+    for h in ("61", "20", "0a"):
+        add(h)
+    n = len(units)
+    scale = 1 if tier == "quick" else 8
+    def maxlen(offsets, budget, cap):
+        L, total = 0, 0
+        while L < cap and offsets * (total + n ** (L + 1)) <= budget:
+            L += 1
+            total += n ** L
+        return max(L, 1)
+    len1, len2 = maxlen(10, 30000 * scale, 6), maxlen(110, 20000 * scale, 4)
+    d, x = hb[""], hb["extras"]
+    shards = 4
+    pipes = ["%s escalate %s %d %d %d %d | %s read=1" % (d, ",".join(units), len1, len2, i, shards, runner) for i in range(shards)]
+    pipes += ["%s escalate %s %d %d %d 2 | %s read=1" % (x, ",".join(units), len1, len2, i, runner) for i in range(2)]
+    show = [bytes.fromhex(u).decode("utf-8", "replace") for u in units]
+    return pipes, {"triggered_by": "the real reader's AST of grammar.pest differs from coq/Meta/Tokens.v meta_grammar", "differing_rules": diff["rules"],
+                   "alphabet": show, "max_units_per_word": {"first base spelling": len1, "other base spellings": len2},
+                   "what": "every word of <= %d (<= %d) units over %r inserted at every offset of the first (every other) base spelling; oracle: the written AST where the "
+                           "word is a gap at a token boundary (reference scanner of Text.v `gap`), otherwise the specification reader" % (len1, len2, show)}
 
 
 def probe(hbin):
@@ -194,12 +283,20 @@ def report(res, thm, mism, stats, contracts, known, bounds):
     model_m = [m for m in mism if m["kind"] == "model"]
     other_m = [m for m in mism if m["kind"] not in ("spec", "model")]
     if spec_m:
-        worst = min(spec_m, key=lambda m: (len(text_of(m["case"])) if "t=" in m["case"] else 10 ** 6, len(m["case"])))
-        res.violation("the grammar reader does not reconstruct the grammar that was written: the spelling %r is read as `%s`, written was `%s` (%d such spellings)"
-                      % (text_of(worst["case"]), worst["impl"][:300], worst["expected"][:300], len(spec_m)),
-                      {"theorem_or_correspondence": "C07 oracle: real parse + consume_rules of a generated spelling vs the generated AST (harness CONTRACT / runner spec)",
-                       "case": worst["case"], "text": text_of(worst["case"]), "impl": worst["impl"], "spec": worst["expected"],
-                       "spec_mismatches_seen": len(spec_m), "legend": LEGEND})
+        # prefer a spelling whose written AST is known (c=..) to one whose meaning comes from the specification reader (m=1); then the shortest text
+        worst = min(spec_m, key=lambda m: ("|m=" in m["case"], len(text_of(m["case"])) if "t=" in m["case"] else 10 ** 6, len(m["case"])))
+        by_spec_reader = "|m=" in worst["case"]
+        rp = {"theorem_or_correspondence": "C07 oracle: real parse + consume_rules of a generated spelling vs the generated AST (harness CONTRACT / runner spec)",
+              "case": worst["case"], "text": text_of(worst["case"]), "impl": worst["impl"], "spec": worst["expected"],
+              "spec_mismatches_seen": len(spec_m), "legend": LEGEND}
+        if by_spec_reader:
+            rp["theorem_or_correspondence"] = ("C07 oracle: real parse + consume_rules of a text vs the specification reader of C07_statement (the transcription of the "
+                                               "unmodified grammar.pest under Peg.Spec, then consume), which reads the text as this grammar")
+        if model_m:
+            rp["correspondence_also_broken"] = "%s: impl `%s`, model `%s`" % (model_m[0]["case"][:120], model_m[0]["impl"][:400], model_m[0]["expected"][:400])
+        res.violation("the grammar reader does not reconstruct the grammar that was written: the spelling %r is read as `%s`, %s `%s` (%d such spellings)"
+                      % (text_of(worst["case"]), worst["impl"][:300], "the unmodified concrete syntax reads it as" if by_spec_reader else "written was",
+                         worst["expected"][:300], len(spec_m)), rp)
     elif model_m:
         worst = min(model_m, key=lambda m: (len(text_of(m["case"])) if "t=" in m["case"] else 10 ** 6, len(m["case"])))
         res.violation("correspondence broken: the real reader differs from coq/Meta (Consume.v / Tokens.v meta_grammar under Peg.Spec) on %r: impl `%s`, model `%s`; "
@@ -240,14 +337,16 @@ def report(res, thm, mism, stats, contracts, known, bounds):
         "rule": "generated rule sets (1-4 rules, all five modifiers, expression depth <= 4 over every operator, strings over 42 characters that need every escape kind, "
                 "counts at the u32 limits, PEEK indices at the i32 limits, identifiers around PUSH/PEEK, tags and PUSH_LITERAL with grammar-extras) x 5-8 spellings each "
                 "(minimal parentheses by the derived precedence; 0-40% redundant parentheses; no / single / random blanks, newlines, // and nested /* */ comments with "
-                "hostile contents, /// and //! lines; raw / named / \\xHH / \\u{2-6 digits} escape forms in random hex case; leading zeros; leading `|` of a rule), "
+                "hostile contents (runs of `*` and `/` in the body, right after the opener and right before the terminator, `* /`, `/ *`, nested comments, newlines, quotes; "
+                "legality decided by a reference scanner of Text.v `gap`), a // comment that ends the text without a newline, /// and //! lines; raw / named / \\xHH / \\u{2-6 digits} escape forms in random hex case; leading zeros; leading `|` of a rule), "
                 "read by the real parse + consume_rules and compared with the generated AST; plus " + bounds + ". non-trivial = read back correctly AND the rule set nests "
                 "a choice with a sequence, two operators of one level, or a prefix with a postfix operator; distinct by text within each generator process",
         "exhaustive": True,
         "exhaustive_bound": bounds + " (the theorems are unbounded)",
         "samples": ["a = { b | c ~ d }", "a = { !b* }", "a = { b ~ (c ~ d) }", "a = { ^ \"b\" }  (known class)", "a = { (| b | c) }  (known class)"],
         "histogram": {k: stats.get(k, 0) for k in ("ok", "invalid", "known_generated", "contract", "redundant_parens", "with_comments", "with_escapes", "with_docs",
-                                                  "leading_zeros", "rule_bars", "mixed_levels", "same_level_nests", "prefix_postfix", "spec_forest_checks",
+                                                  "leading_zeros", "rule_bars", "mixed_levels", "same_level_nests", "prefix_postfix",
+                                                  "hostile_comments", "star_run_before_close", "line_comment_at_end_of_text", "spec_forest_checks",
                                                   "invalid_checked_on_model", "known_class")},
         "runner_cases": stats.get("cases", 0),
         "mismatches": len(mism) + len(contracts),
